@@ -170,6 +170,101 @@ def step09 (blockSize : Nat) (st : M09) (x : TEntry) : Option M09 :=
 
 def P09 (blockSize : Nat) (tr : Trace) : Bool := checkTrace (step09 blockSize) { cache := none, alive := true } tr
 
+/-! ### C10: block requests tile each assigned piece exactly once -/
+
+structure Cur where
+  idx : Nat
+  plen : Nat
+  sent : Nat                       -- how many blocks of the tiling have been requested so far
+  outstanding : List (Nat × Nat)   -- requested and not yet answered
+  deriving DecidableEq
+
+structure M10 where
+  cur : Option Cur
+  alive : Bool
+
+def requestWrites (obs : List Obs) : List (Nat × Nat × Nat) :=
+  (writes obs).filterMap fun | .request i b l => some (i, b, l) | _ => none
+
+def savedObs (obs : List Obs) : List (Bytes × Bytes × Nat) :=
+  obs.filterMap fun | .saved n d l => some (n, d, l) | _ => none
+
+/-- Consume the request frames written in one event: each must be the next tile of the current piece. -/
+def takeRequests (B : Nat) (c : Cur) : List (Nat × Nat × Nat) → Option Cur
+  | [] => some c
+  | (i, b, l) :: rest =>
+    match (leftBlocks B c.plen)[c.sent]? with
+    | some (tb, tl) =>
+      if i = c.idx ∧ b = tb ∧ l = tl then
+        takeRequests B { c with sent := c.sent + 1, outstanding := c.outstanding ++ [(tb, tl)] } rest
+      else none
+    | none => none
+
+/-- The reply of the manager that assigns a piece, if the event consumed it (`cmd` was sent in this event). -/
+def assigned (inp : TIn) (obs : List Obs) : Option (Option ReqData) :=
+  match inp with
+  | .frame .unchoke rep _ =>
+    if (cmds obs).contains .recvUnchoke then
+      some (match rep with | .req rd _ => some rd | _ => none) else none
+  | .frame (.haveP _) rep _ =>
+    if (cmds obs).any (fun c => match c with | .recvHave _ => true | _ => false) then
+      (match rep with | .req rd _ => some (some rd) | _ => none) else none
+  | .frame (.piece ..) rep _ =>
+    if (cmds obs).contains .pieceDone then some (match rep with | .req rd _ => some rd | _ => none) else none
+  | .bcHave _ rep =>
+    if (cmds obs).contains .pieceCancel then some (match rep with | .req rd _ => some rd | _ => none) else none
+  | _ => none
+
+/-- C10 monitor. All `Request` frames written between an assignment and the completion/cancellation of the
+    piece name that piece and are, in order, the tiles `(k·B, min B (len − k·B))` of its length, each exactly once;
+    two are pipelined at the assignment; every accepted block (one that answers an outstanding request) is followed
+    by exactly one further request while tiles remain; the piece is stored and reported exactly at the accepted
+    block that leaves nothing outstanding and nothing unrequested; blocks that are not outstanding (duplicates,
+    foreign indices or offsets, wrong lengths) cause nothing. -/
+def step10c (B : Nat) (st : M10) (inp : TIn) (obs : List Obs) (ended : Option Bool) : Option M10 :=
+  let total := fun (c : Cur) => (leftBlocks B c.plen).length
+  -- 1. an accepted block
+  let (cur1, accepted) : Option Cur × Bool :=
+    match inp, st.cur with
+    | .frame (.piece i b blk) _ _, some c =>
+      if i = c.idx ∧ c.outstanding.contains (b, blk.length) then
+        (some { c with outstanding := c.outstanding.filter (· ≠ (b, blk.length)) }, true)
+      else (some c, false)
+    | _, c => (c, false)
+  let saves := savedObs obs
+  let reqs := requestWrites obs
+  -- completion: only at an accepted block that leaves nothing outstanding and nothing unrequested
+  let completes := match cur1 with
+    | some c => accepted && c.outstanding.isEmpty && decide (c.sent = total c)
+    | none => false
+  if !saves.isEmpty && !completes then none else
+  if completes && saves.isEmpty && ended.isNone then none else   -- (a hash mismatch ends the task instead)
+  -- 2. (re)assignment consumed in this event?
+  match assigned inp obs with
+  | some (some rd) =>
+    -- all requests of this event belong to the new piece: the first two tiles
+    let c0 : Cur := { idx := rd.index, plen := rd.length, sent := 0, outstanding := [] }
+    (match takeRequests B c0 reqs with
+     | some c => if c.sent = min 2 (total c0) then some { cur := some c, alive := ended.isNone } else none
+     | none => none)
+  | some none => if reqs.isEmpty then some { cur := none, alive := ended.isNone } else none
+  | none =>
+    match cur1 with
+    | some c =>
+      if completes then (if reqs.isEmpty then some { cur := none, alive := ended.isNone } else none) else
+      (match takeRequests B c reqs with
+       | some c' =>
+         -- exactly one further request after an accepted block while tiles remain, none otherwise
+         if c'.sent = c.sent + (if accepted && decide (c.sent < total c) then 1 else 0)
+         then some { cur := some c', alive := ended.isNone } else none
+       | none => none)
+    | none => if reqs.isEmpty then some { cur := none, alive := ended.isNone } else none
+
+def step10 (B : Nat) (st : M10) (x : TEntry) : Option M10 :=
+  if !st.alive then (if deadOk x then some st else none) else step10c B st x.1 x.2.1 x.2.2
+
+def P10 (B : Nat) (tr : Trace) : Bool := checkTrace (step10 B) { cur := none, alive := true } tr
+
 /-! ### C06 (level 3): a receive error ends the task at once -/
 
 def step06 (alive : Bool) (x : TEntry) : Option Bool :=
